@@ -2,7 +2,7 @@
 
 import numpy as np
 
-OCC_CLASSES = ["closed", "rohf", "fractional", "aminusb", "aminusb_neg", "none", "empty"]
+OCC_CLASSES = ["closed", "rohf", "fractional", "aminusb", "aminusb_neg", "aminusb_zero", "none", "empty"]
 
 
 def documented_spin_occupations(occs, occs_aminusb):
@@ -38,6 +38,10 @@ def restricted_occupations(rng, norb, occ_class):
         if norb:
             occs[0] = 1.9371
         return occs, None
+    if occ_class == "aminusb_zero":
+        # explicit, exactly zero alpha-minus-beta occupation on integer (open-shell) or fractional occupations
+        occs, _ = restricted_occupations(rng, norb, str(rng.choice(["rohf", "closed", "fractional"])))
+        return occs, np.zeros(norb)
     if occ_class in ("aminusb", "aminusb_neg"):
         occs = np.sort(rng.uniform(0.0, 2.0, size=norb))[::-1].copy()
         lim = np.minimum(occs, 2 - occs)
